@@ -81,6 +81,13 @@ def fixed_writelines(w): rep(w + "/cutplace/rowio.py", '            self._target
 def fixed_write_per_field(w): rep(w + "/cutplace/rowio.py", '            self._target_stream.write("".join(row_to_write))\n', "            for field_value in row_to_write:\n                self._target_stream.write(field_value)\n")
 def pad_stripped(w):
     rep(w + "/cutplace/validio.py", "            _, fixed_field_length = self._field_names_and_lengths[field_index]\n            # Anything but a string is left for the validation to reject.\n", "            # Pad the same text the field format has validated.\n            field_value = field_value.strip()\n            _, fixed_field_length = self._field_names_and_lengths[field_index]\n            # Anything but a string is left for the validation to reject.\n")
+GUARD = ("            if not self._has_reset_checks:\n                # A run without any row (for example ``validate(..., validate_until=0)``, where\n                # ``rows()`` never starts) must not see what the CID was used for before.\n                self._reset_checks()\n")
+CLOSE_BODY = ("            try:\n                for check_name in self.cid.check_names:\n                    self.cid.check_map[check_name].check_at_end(self.location)\n            finally:\n"
+              "                for check in self.cid.check_map.values():\n                    check.cleanup()\n")
+def reset_after_the_verdicts(w):
+    rep(w + "/cutplace/validio.py", GUARD + CLOSE_BODY, CLOSE_BODY + GUARD.replace("must not see what the CID was used for before", "leaves nothing behind for the next user of the CID"))
+def close_without_finally(w):
+    rep(w + "/cutplace/validio.py", CLOSE_BODY, "            for check_name in self.cid.check_names:\n                self.cid.check_map[check_name].check_at_end(self.location)\n            for check in self.cid.check_map.values():\n                check.cleanup()\n")
 def exit_closes_only_without_error(w):
     rep(w + "/cutplace/validio.py", "        try:\n            self.close()\n        except errors.CutplaceError:\n            if exc_type is None:\n                raise\n", "        if exc_type is None:\n            self.close()\n")
 
@@ -91,7 +98,7 @@ PLAN = {"C03-10": chars_on_stripped, "C03-2": chars_on_stripped, "C04-10": chars
         "C17-8": datetime_flags_first, "C18-7": excel_only_missing_is_unreadable,
         "C07-11": validate_without_reader_limit, "C08-1": writer_reset_only_delimited, "C08-9": writer_reset_before_delimited_only, "C14-2": writer_no_reset, "C08-4": reset_at_close_not_in_writer, "C08-8": writer_reset_at_first_data_row,
         "C09-11": advance_only_nonempty_rows, "C09-2": advance_only_nonempty_rows, "C09-5": advance_only_nonempty_rows, "C14-10": fixed_writelines, "C14-6": fixed_writelines, "C14-3": fixed_write_per_field, "C14-9": pad_stripped,
-        "C20-7": exit_closes_only_without_error}
+        "C20-7": exit_closes_only_without_error, "C08-11": reset_after_the_verdicts, "C20-1": close_without_finally, "C20-5": close_without_finally}
 
 def main(ids):
     head = subprocess.check_output(["git", "-C", "/repo", "rev-parse", "--short", "HEAD"], text=True).strip()
